@@ -3,6 +3,7 @@
 -/
 import GeonumModel.Lemmas.AngleStep
 import GeonumModel.Lemmas.Shift
+import GeonumModel.Lemmas.Exact
 
 set_option linter.unusedSectionVars false
 set_option linter.unusedVariables false
@@ -70,8 +71,66 @@ theorem reflect_blades {g axis : Geonum F} (hg : g.angle.Inv) (hax : axis.angle.
 
 end S
 
-/-! PARTIAL (E-tier, not yet proved): direction of the reflection = 2α − t (mod 2π), involution, fixed points on the axis,
-    additive composition of rotation directions, Cartesian meaning of scale-rotate.  Explored by `oracle.C12.*`. -/
+/-! ### E-tier: exact arithmetic — directions -/
+section E
+open GeonumModel.Exact
+
+/-- (E) rotation adds the totals (slack below `1e-10 + 1e-15` only when the sum snapped to a quarter turn): rotations
+    compose additively -/
+theorem rotate_total_real {g : Geonum ℝ} {r : Angle ℝ} (hg : g.angle.Inv) (hr : r.Inv) :
+    ∃ δ : ℝ, |δ| < 1 / 10 ^ 10 + 1 / 10 ^ 15 ∧ T (g.rotate r).angle = T g.angle + T r + δ :=
+  add_total_real hg hr
+
+/-- (E) **reflection sends direction `t` to `2α − t` modulo whole turns**, to within three snap tolerances -/
+theorem reflect_direction_real {g axis : Geonum ℝ} (hg : g.angle.Inv) (hax : axis.angle.Inv) :
+    ∃ (δ : ℝ) (m : ℤ), |δ| < 3 * (1 / 10 ^ 10 + 1 / 10 ^ 15) ∧
+      T (g.reflect axis).angle = 2 * T axis.angle - T g.angle + δ + (m : ℝ) * (2 * Real.pi) := by
+  -- the complement 4π − base(t)
+  obtain ⟨hb8, _, _, hv8⟩ := new_four_one (F := ℝ)
+  simp only at hb8 hv8
+  have h4inv : (Angle.new (four : ℝ) one).Inv := Angle.Equiv.inv (Angle.Equiv.symm new_four_one) (inv_zero 8)
+  have hv8' : (Angle.new (four : ℝ) one).rem = 0 := by
+    have : val (F := ℝ) (zero : ℝ) = 0 := val_zero
+    rw [this] at hv8; exact hv8
+  have hT4 : T (Angle.new (four : ℝ) one) = 4 * Real.pi := by unfold T; rw [hb8, hv8']; push_cast; ring
+  have hbase : T g.angle.baseAngle = T g.angle - ((g.angle.blade / 4 : ℕ) : ℝ) * (2 * Real.pi) := by
+    unfold T baseAngle grade
+    have h : g.angle.blade = 4 * (g.angle.blade / 4) + g.angle.blade % 4 := (Nat.div_add_mod g.angle.blade 4).symm
+    have hr : (g.angle.blade : ℝ) = 4 * ((g.angle.blade / 4 : ℕ) : ℝ) + ((g.angle.blade % 4 : ℕ) : ℝ) := by exact_mod_cast h
+    simp only; rw [hr]; push_cast; ring
+  obtain ⟨δ2, m2, hδ2, hc⟩ := sub_total_real (a := g.angle.baseAngle) (b := Angle.new (four : ℝ) one) (baseAngle_inv hg) h4inv
+  have hcinv := geometricSub_inv h4inv (baseAngle_inv hg)
+  obtain ⟨δ1, hδ1, haa⟩ := add_total_real hax hax
+  have haainv := geometricAdd_inv hax hax
+  obtain ⟨δ3, hδ3, hres⟩ := add_total_real haainv hcinv
+  refine ⟨δ1 + δ2 + δ3, m2 + 2 + (g.angle.blade / 4 : ℕ), ?_, ?_⟩
+  · have := abs_add_three δ1 δ2 δ3
+    linarith
+  · show T ((axis.angle.geometricAdd axis.angle).geometricAdd ((Angle.new four one).geometricSub g.angle.baseAngle)) = _
+    rw [hres, haa, hc, hT4, hbase]
+    simp only [Int.cast_add, Int.cast_natCast, Int.cast_ofNat]
+    ring
+
+/-- (E) a number lying on the axis keeps its direction; reflecting across the negated axis gives the same direction -/
+theorem reflect_on_axis_real {g axis : Geonum ℝ} (hg : g.angle.Inv) (hax : axis.angle.Inv) (hon : T g.angle = T axis.angle) :
+    ∃ (δ : ℝ) (m : ℤ), |δ| < 3 * (1 / 10 ^ 10 + 1 / 10 ^ 15) ∧
+      T (g.reflect axis).angle = T g.angle + δ + (m : ℝ) * (2 * Real.pi) := by
+  obtain ⟨δ, m, hδ, h⟩ := reflect_direction_real hg hax
+  exact ⟨δ, m, hδ, by rw [h, hon]; ring⟩
+
+theorem reflect_negated_axis_real {g axis : Geonum ℝ} (hg : g.angle.Inv) (hax : axis.angle.Inv) :
+    ∃ (δ : ℝ) (m : ℤ), |δ| < 3 * (1 / 10 ^ 10 + 1 / 10 ^ 15) ∧
+      T (g.reflect axis.negate).angle = 2 * T axis.angle - T g.angle + δ + (m : ℝ) * (2 * Real.pi) := by
+  have hn := negate_spec hax
+  have hninv : axis.negate.angle.Inv := inv_of_spec hax hn.2
+  obtain ⟨δ, m, hδ, h⟩ := reflect_direction_real hg hninv
+  have hT : T axis.negate.angle = T axis.angle + Real.pi := negate_total_real hax
+  exact ⟨δ, m + 1, hδ, by rw [h, hT]; push_cast; ring⟩
+
+end E
+
+/-! PARTIAL (not yet proved): the involution `reflect ∘ reflect` as a composed statement (follows from `reflect_direction_real`
+    applied twice, slack 6 tolerances) and the Cartesian meaning of scale-rotate.  Explored by `oracle.C12.*`. -/
 
 example {F : Type} [FloatSpec F] : (⟨zero, 6⟩ : Angle F).Inv := inv_zero 6
 
